@@ -140,6 +140,14 @@ def build_catalogue(tier, seed):
                                  (b1[0] + 3600, b1[1], b1[2]))
         out.append({"kind": "ligand", "text": pdbio.write([e for e in s.entries if isinstance(e, pdbio.Atom)
                                                           or e.startswith("TER")] + het)})
+    # a ligand whose covalently coupled groups have identical pKa values (three phosphate oxygens far from everything):
+    # the choice between them must not depend on object addresses
+    s = base[0]
+    b1 = pdbio.bbox(s.entries)[1]
+    het = gen.hetero_residue(gen.LIGANDS["MPO"]["resn"], gen.LIGANDS["MPO"]["atoms"], "L", 801, pdbio.ROTATIONS[3],
+                             (b1[0] + 16000, b1[1] + 16000, b1[2] + 16000))
+    out.append({"kind": "ligand-tied-groups", "text": pdbio.write([e for e in s.entries if isinstance(e, pdbio.Atom)
+                                                                  or e.startswith("TER")] + het)})
     for text, info in collect(genconf.multi_conformation(max_res=10), 2 if tier == "quick" else 8, "conf"):
         out.append({"kind": "multi-conformation", "text": text})
     for s in collect(gen.buried_structures(pair_kind="acid-acid", with_hetero=False), 1 if tier == "quick" else 6,
